@@ -179,14 +179,20 @@ void elem_ops(vr::rng &g, const char *be, const char *ty, int reps) {
             backend::clear(Y.get());
             { vr::obj o = head("clear", be, ty, K); o.raw("y", fv_json(y)).raw("out", fv_json(read(Y.get(), n, W))); put(o); }
         } catch (const std::exception &e) { vr::obj o = head("copy", be, ty, K); o.str("exc", e.what()); vr::emit(o.done()); }
-        try {   // inner product
+        try {   // inner product; the parallel reduction is also run at thread counts that are not powers of two
             int n = rep % 3 == 0 ? g.range(20, 70) : pick_n(g); FV x = gen_fv(g, n, W), y = gen_fv(g, n, W);
             H<V> X(n), Y(n); fill(X.get(), n, x); fill(Y.get(), n, y);
-            auto r = backend::inner_product(X.get(), Y.get());
-            typedef typename std::decay<decltype(r)>::type RT; long double comp[2] = {0, 0}; ST<RT>::get(r, comp);
-            long long out[2] = {0, 0};
-            for (int k = 0; k < 2; ++k) { if (!std::isfinite((double)comp[k]) || comp[k] != std::rint(comp[k])) g_exact = false; else out[k] = (long long)comp[k]; }
-            vr::obj o = head("inner", be, ty, K); o.raw("x", fv_json(x)).raw("y", fv_json(y)).ints("out", out, out + 2); put(o);
+            static const int tcs[] = {0, 3, 5, 6, 7, 2};
+            const int nt0 = omp_get_max_threads();
+            for (int t = 0; t < (n >= 14 ? 6 : 1); ++t) {
+                if (tcs[t]) omp_set_num_threads(tcs[t]);
+                auto r = backend::inner_product(X.get(), Y.get());
+                typedef typename std::decay<decltype(r)>::type RT; long double comp[2] = {0, 0}; ST<RT>::get(r, comp);
+                long long out[2] = {0, 0};
+                for (int k = 0; k < 2; ++k) { if (!std::isfinite((double)comp[k]) || comp[k] != std::rint(comp[k])) g_exact = false; else out[k] = (long long)comp[k]; }
+                vr::obj o = head("inner", be, ty, K); o.raw("x", fv_json(x)).raw("y", fv_json(y)).ints("out", out, out + 2); put(o);
+                omp_set_num_threads(nt0);
+            }
         } catch (const std::exception &e) { vr::obj o = head("inner", be, ty, K); o.str("exc", e.what()); vr::emit(o.done()); }
         try {   // lin_comb: y = alpha y + sum c_k v_k, k = 1..5 vectors
             int n = pick_n(g), k = g.range(1, 5); FV y = gen_fv(g, n, W); CF alpha = pick<Coef>(g, 0.5);
@@ -336,7 +342,11 @@ void reint_ops(vr::rng &g, const char *ty, int reps) {
         auto Y = backend::reinterpret_as_rhs<Block>(Ys.get());
         { vr::obj o = head("inner", "builtin", ty, K, "reinterpret"); FV y0 = y; for (auto &q : y0.p) q = 0; fill(Ys.get(), ls, y0);
           auto r = backend::inner_product(X, Y); long long out[2] = {(long long)r, 0}; if (r != std::rint(r)) g_exact = false;
-          o.raw("x", fv_json(x)).raw("y", fv_json(y0)).ints("out", out, out + 2); put(o); fill(Ys.get(), ls, y); }
+          o.raw("x", fv_json(x)).raw("y", fv_json(y0)).ints("out", out, out + 2); put(o);
+          const int nt0 = omp_get_max_threads();
+          for (int tc : {3, 7}) { omp_set_num_threads(tc); auto r2 = backend::inner_product(X, Y); long long o2[2] = {(long long)r2, 0}; if (r2 != std::rint(r2)) g_exact = false;
+              vr::obj q = head("inner", "builtin", ty, K, "reinterpret"); q.raw("x", fv_json(x)).raw("y", fv_json(y0)).ints("out", o2, o2 + 2); put(q); omp_set_num_threads(nt0); }
+          fill(Ys.get(), ls, y); }
         backend::axpby(mkc<Coef>::get(a), X, mkc<Coef>::get(b), Y);
         { vr::obj o = head("axpby", "builtin", ty, K, "reinterpret"); o.raw("a", cf_json(a, K.cx)).raw("bb", cf_json(b, K.cx)).raw("x", fv_json(x)).raw("y", fv_json(y)).raw("out", fv_json(read(Ys.get(), ls, W))); put(o); }
         FV z = gen_fv(g, n, W); poison(g, z); fill(Ys.get(), ls, z);
